@@ -65,7 +65,7 @@ func keyedKey(p *parsed) []byte {
 	if !p.ok {
 		return nil
 	}
-	if p.isUDP && p.udp.DstPort == scionPort {
+	if p.isUDP && int(p.udp.DstPort) == scionPort {
 		return expectedKey(uint64(p.scn.DstIA), uint64(p.scn.SrcIA), p.scn.RawDstAddr, p.scn.RawSrcAddr)
 	}
 	return expectedKey(uint64(p.scn.SrcIA), uint64(p.scn.DstIA), p.scn.RawSrcAddr, p.scn.RawDstAddr)
@@ -76,7 +76,7 @@ func keyedKey(p *parsed) []byte {
 func keyedFlags(raw []byte) []string {
 	p := parse(raw)
 	keyok, epochok := true, true
-	if p.ok && p.isUDP && p.udp.DstPort == scionPort {
+	if p.ok && p.isUDP && int(p.udp.DstPort) == scionPort {
 		switch modeOfPair(uint64(p.scn.SrcIA), uint64(p.scn.DstIA)) {
 		case modeError, modeShort, modeLong:
 			keyok = false
@@ -139,7 +139,7 @@ func (d *drv) genKeyedHistory(r *lib.Rng) ([]step, string) {
 		h := &pktSpec{auth: -1, dstIA: srvIA, srcIA: cliIA,
 			dstType: srvHosts[si].t, dstRaw: srvHosts[si].raw, srcType: cliHosts[ci].t, srcRaw: cliHosts[ci].raw,
 			tc: uint8(r.U64()), flow: uint32(r.U64()) & 0xfffff,
-			udpSrc: uint16(20000 + r.Intn(10000)), udpDst: scionPort}
+			udpSrc: uint16(20000 + r.Intn(10000)), udpDst: uint16(scionPort)}
 		h.pathType, h.pathRaw = genPath(r, tagset{})
 		h.payload = ntpRequest(r, 0)
 		if r.Intn(4) == 0 { // NTS and packet authentication at once
@@ -477,7 +477,7 @@ func (d *drv) runParallel(r *lib.Rng) {
 		for len(j.steps) < n {
 			ct, ch := genHost(r, r.Intn(3) == 0)
 			h := &pktSpec{auth: -1, dstIA: srvIA, srcIA: cliIA, dstType: 0, dstRaw: srvHost, srcType: ct, srcRaw: ch,
-				tc: uint8(r.U64()), flow: uint32(r.U64()) & 0xfffff, udpSrc: uint16(20000 + r.Intn(10000)), udpDst: scionPort}
+				tc: uint8(r.U64()), flow: uint32(r.U64()) & 0xfffff, udpSrc: uint16(20000 + r.Intn(10000)), udpDst: uint16(scionPort)}
 			h.pathType, h.pathRaw = genPath(r, tagset{})
 			h.payload = ntpRequest(r, 0)
 			switch r.Intn(6) {
@@ -568,7 +568,7 @@ func (d *drv) runParallel(r *lib.Rng) {
 
 func sentinelWithSeq(hIP net.IP, seq uint32) []byte {
 	h := &pktSpec{dstIA: 0x0001ff0000000112, srcIA: 0x0001ff0000000111,
-		dstRaw: []byte{10, 9, 8, 7}, srcRaw: append([]byte(nil), hIP...), auth: -1, udpSrc: 31002, udpDst: scionPort}
+		dstRaw: []byte{10, 9, 8, 7}, srcRaw: append([]byte(nil), hIP...), auth: -1, udpSrc: 31002, udpDst: uint16(scionPort)}
 	s := make([]byte, ntp.PacketLen)
 	s[0] = 4<<3 | 3
 	binary.BigEndian.PutUint32(s[40:], sentinelSecs)
